@@ -406,8 +406,12 @@ fn c32(ctx: &mut Ctx, eng: &mut Engine, pool: &Pool) {
         for round in 0..k {
             let n = if round == 0 { 5 } else { 3 + ch.below(3) };
             let items: Vec<Vec<serde_json::Value>> = p.inputs.iter().map(|i| rich_items(&i.ty, &mut ch, n)).collect();
-            // vary one input at a time (the first one with a non-fixed adversary)
-            let vi = cp.adv.iter().position(|a| *a != corpus::Adv::Fixed).unwrap_or(0);
+            // vary one input at a time (each one with a non-fixed adversary in turn)
+            let mut varied: Vec<usize> = (0..cp.adv.len()).filter(|i| cp.adv[*i] != corpus::Adv::Fixed).collect();
+            if varied.is_empty() {
+                varied.push(0);
+            }
+            for vi in varied {
             let pres = presentations(cp.adv[vi], &items[vi], &mut ch, max_pres);
             let mut schedules = vec![];
             let mut notes = vec![];
@@ -415,12 +419,18 @@ fn c32(ctx: &mut Ctx, eng: &mut Engine, pool: &Pool) {
                 let mut ins = items.clone();
                 ins[vi] = alt.clone();
                 if p.traits.tick_program {
-                    // one batch, then (for every 4th presentation) the same items over two batches
                     schedules.push(sched::single_tick(&ins, &[]));
                     notes.push(format!("{label}:single-batch"));
                 } else {
                     schedules.push(sched::single_tick(&ins, &[]));
                     notes.push(format!("{label}:single-tick"));
+                    // every item of every input in its own tick: a retry / duplicate arrives in
+                    // a later tick than the original
+                    let assign: Vec<Vec<usize>> = ins.iter().map(|x| (0..x.len()).collect()).collect();
+                    if ins.iter().any(|x| x.len() >= 2) {
+                        schedules.push(sched::from_assignment(&ins, &[], &assign));
+                        notes.push(format!("{label}:one-item-per-tick"));
+                    }
                     if i % 3 == 0 {
                         let ps = sched::partitions(&ins, &[], &mut ch, 12);
                         let pick = ps[ps.len() - 1].clone();
@@ -438,6 +448,7 @@ fn c32(ctx: &mut Ctx, eng: &mut Engine, pool: &Pool) {
                 }
             }
             cases.push(Case { prog: p.clone(), schedules, notes });
+            }
         }
     }
     ctx.floor = 20;
